@@ -129,7 +129,7 @@ struct FoundViolation {
 
 const MAX_OUTCOMES: usize = 2_000_000;
 
-fn explore_case(idx: usize, case: &Case, deadline: Option<Instant>, want_sample: bool) -> Value {
+fn explore_case(idx: usize, case: &Case, deadline: Option<Instant>, want_sample: bool, split: Option<vexec::Split>, abort_after: Option<u64>) -> Value {
     let t0 = Instant::now();
     let mut outcomes: HashSet<u64> = HashSet::new();
     let mut found: BTreeMap<String, (u64, FoundViolation)> = BTreeMap::new();
@@ -180,9 +180,13 @@ fn explore_case(idx: usize, case: &Case, deadline: Option<Instant>, want_sample:
         }
         Control::Continue
     };
-    let r = vexec::explore(case.bound, deadline, 2, &mut run, &mut visit);
+    let r = vexec::explore(case.bound, deadline, 2, split, abort_after, &mut run, &mut visit);
     let mut out = json!({"idx": idx, "desc": case.desc, "wall_s": t0.elapsed().as_secs_f64()});
     match r {
+        Ok(stats) if stats.aborted_too_big => {
+            out["too_big"] = json!(true);
+            out["schedules"] = json!(stats.schedules);
+        }
         Ok(stats) => {
             let complete = !stats.wall_hit;
             for v in case.scene.finish(complete) {
@@ -205,6 +209,11 @@ fn explore_case(idx: usize, case: &Case, deadline: Option<Instant>, want_sample:
             out["pruned"] = json!(stats.pruned);
             out["wall_hit"] = json!(stats.wall_hit);
             out["reruns"] = json!(stats.determinism_reruns);
+            out["structure_runs"] = json!(stats.structure_runs);
+            if let Some(sp) = split {
+                out["part"] = json!(sp.part);
+                out["parts"] = json!(sp.parts);
+            }
             out["outcomes"] = json!(outcomes.len());
             out["end_quiescent"] = json!(end_quiescent);
             out["end_horizon"] = json!(end_horizon);
@@ -265,6 +274,8 @@ pub fn quiet_panics() {
 pub fn worker_main(prop: &Property, tier: Tier, deadline_unix_ms: u64) {
     quiet_panics();
     let cases = (prop.cases)(tier);
+    // a case that turns out to have more executions than this is given back to be split
+    let split_threshold: u64 = std::env::var("VERIF_SPLIT_AT").ok().and_then(|s| s.parse().ok()).unwrap_or(150_000);
     let stdin = std::io::stdin();
     let stdout = std::io::stdout();
     let deadline = if deadline_unix_ms == 0 {
@@ -278,13 +289,15 @@ pub fn worker_main(prop: &Property, tier: Tier, deadline_unix_ms: u64) {
     };
     for line in stdin.lock().lines() {
         let Ok(line) = line else { break };
-        let Ok(idx) = line.trim().parse::<usize>() else {
-            break;
-        };
+        let f: Vec<u64> = line.split_whitespace().filter_map(|x| x.parse().ok()).collect();
+        let Some(&idx) = f.first() else { break };
+        let idx = idx as usize;
+        let split = if f.len() >= 4 { Some(vexec::Split { part: f[1] as u32, parts: f[2] as u32, depth: f[3] as usize }) } else { None };
+        let abort_after = if split.is_none() { Some(split_threshold) } else { None };
         let out = if deadline.is_some_and(|d| Instant::now() >= d) {
             json!({"idx": idx, "desc": cases[idx].desc, "skipped": true, "violations": []})
         } else {
-            explore_case(idx, &cases[idx], deadline, idx % 97 == 0 || idx < 3)
+            explore_case(idx, &cases[idx], deadline, (idx % 97 == 0 || idx < 3) && split.is_none_or(|s| s.part == 0), split, abort_after)
         };
         let mut so = stdout.lock();
         writeln!(so, "{}", out).unwrap();
@@ -340,8 +353,11 @@ pub fn check_main(prop: &Property, tier: Tier) -> i32 {
     let descs: Vec<String> = cases.iter().map(|c| c.desc.clone()).collect();
     let bounds: Vec<Option<u32>> = cases.iter().map(|c| c.bound).collect();
     drop(cases);
-    let order = Arc::new(shuffle_indices(ncases, seed));
-    let next = Arc::new(AtomicUsize::new(0));
+    let queue: Arc<Mutex<std::collections::VecDeque<String>>> =
+        Arc::new(Mutex::new(shuffle_indices(ncases, seed).into_iter().map(|i| i.to_string()).collect()));
+    let in_flight = Arc::new(AtomicUsize::new(0));
+    const PARTS: u32 = 32;
+    const SPLIT_DEPTH: usize = 6;
     let results: Arc<Mutex<Vec<Value>>> = Arc::new(Mutex::new(Vec::new()));
     let machinery: Arc<Mutex<Vec<String>>> = Arc::new(Mutex::new(Vec::new()));
     let deadline_ms = std::time::SystemTime::now()
@@ -352,7 +368,7 @@ pub fn check_main(prop: &Property, tier: Tier) -> i32 {
     let exe = std::env::current_exe().expect("current exe");
     let mut threads = vec![];
     for _w in 0..nworkers.min(ncases.max(1)) {
-        let (order, next, results, machinery) = (order.clone(), next.clone(), results.clone(), machinery.clone());
+        let (queue, in_flight, results, machinery) = (queue.clone(), in_flight.clone(), results.clone(), machinery.clone());
         let exe = exe.clone();
         let id = prop.id.to_string();
         threads.push(std::thread::spawn(move || {
@@ -372,27 +388,52 @@ pub fn check_main(prop: &Property, tier: Tier) -> i32 {
             let mut cin = child.stdin.take().unwrap();
             let mut cout = BufReader::new(child.stdout.take().unwrap());
             loop {
-                let k = next.fetch_add(1, Ordering::SeqCst);
-                if k >= order.len() {
-                    break;
-                }
-                let idx = order[k];
-                if writeln!(cin, "{idx}").is_err() {
-                    machinery.lock().unwrap().push(format!("worker died before case {idx}"));
+                // take a task; when the queue is empty other workers may still split a case
+                let task = {
+                    let mut q = queue.lock().unwrap();
+                    let t = q.pop_front();
+                    if t.is_some() {
+                        in_flight.fetch_add(1, Ordering::SeqCst);
+                    }
+                    t
+                };
+                let Some(task) = task else {
+                    if in_flight.load(Ordering::SeqCst) == 0 {
+                        break;
+                    }
+                    std::thread::sleep(Duration::from_millis(5));
+                    continue;
+                };
+                if writeln!(cin, "{task}").is_err() {
+                    machinery.lock().unwrap().push(format!("worker died before task {task}"));
+                    in_flight.fetch_sub(1, Ordering::SeqCst);
                     break;
                 }
                 let _ = cin.flush();
                 let mut line = String::new();
                 match cout.read_line(&mut line) {
                     Ok(n) if n > 0 => match serde_json::from_str::<Value>(&line) {
-                        Ok(v) => results.lock().unwrap().push(v),
-                        Err(e) => machinery.lock().unwrap().push(format!("bad worker output for case {idx}: {e}")),
+                        Ok(v) => {
+                            if v["too_big"].as_bool().unwrap_or(false) {
+                                // give the case back as PARTS shares of its choice tree
+                                let idx = v["idx"].as_u64().unwrap_or(0);
+                                let mut q = queue.lock().unwrap();
+                                for part in (0..PARTS).rev() {
+                                    q.push_front(format!("{idx} {part} {PARTS} {SPLIT_DEPTH}"));
+                                }
+                            } else {
+                                results.lock().unwrap().push(v)
+                            }
+                        }
+                        Err(e) => machinery.lock().unwrap().push(format!("bad worker output for task {task}: {e}")),
                     },
                     _ => {
-                        machinery.lock().unwrap().push(format!("worker died in case {idx}"));
+                        machinery.lock().unwrap().push(format!("worker died in task {task}"));
+                        in_flight.fetch_sub(1, Ordering::SeqCst);
                         break;
                     }
                 }
+                in_flight.fetch_sub(1, Ordering::SeqCst);
             }
             drop(cin);
             let _ = child.wait();
@@ -401,8 +442,62 @@ pub fn check_main(prop: &Property, tier: Tier) -> i32 {
     for t in threads {
         let _ = t.join();
     }
-    let results = std::mem::take(&mut *results.lock().unwrap());
+    let raw = std::mem::take(&mut *results.lock().unwrap());
     let mut machinery = std::mem::take(&mut *machinery.lock().unwrap());
+    // merge the shares of split cases into one record per case
+    let mut by_idx: BTreeMap<u64, Value> = BTreeMap::new();
+    let mut split_cases = 0u64;
+    for r in raw {
+        let idx = r["idx"].as_u64().unwrap_or(0);
+        match by_idx.get_mut(&idx) {
+            None => {
+                if r.get("part").is_some() {
+                    split_cases += 1;
+                }
+                by_idx.insert(idx, r);
+            }
+            Some(acc) => {
+                for k in ["schedules", "states", "transitions", "replayed_steps", "outcomes", "reruns", "end_quiescent", "end_horizon", "structure_runs"] {
+                    acc[k] = json!(acc[k].as_u64().unwrap_or(0) + r[k].as_u64().unwrap_or(0));
+                }
+                acc["max_depth"] = json!(acc["max_depth"].as_u64().unwrap_or(0).max(r["max_depth"].as_u64().unwrap_or(0)));
+                acc["wall_s"] = json!(acc["wall_s"].as_f64().unwrap_or(0.0) + r["wall_s"].as_f64().unwrap_or(0.0));
+                for k in ["pruned", "wall_hit"] {
+                    acc[k] = json!(acc[k].as_bool().unwrap_or(false) || r[k].as_bool().unwrap_or(false));
+                }
+                if r.get("skipped").is_some() {
+                    acc["wall_hit"] = json!(true);
+                }
+                if let Some(e) = r.get("error") {
+                    acc["error"] = e.clone();
+                }
+                if acc.get("sample").is_none() {
+                    if let Some(smp) = r.get("sample") {
+                        acc["sample"] = smp.clone();
+                    }
+                }
+                let mut vs = acc["violations"].as_array().cloned().unwrap_or_default();
+                for v in r["violations"].as_array().into_iter().flatten() {
+                    if let Some(e) = vs.iter_mut().find(|e| e["key"] == v["key"]) {
+                        e["count"] = json!(e["count"].as_u64().unwrap_or(0) + v["count"].as_u64().unwrap_or(0));
+                    } else {
+                        vs.push(v.clone());
+                    }
+                }
+                acc["violations"] = Value::Array(vs);
+                if let (Some(a), Some(b)) = (acc.get("export").and_then(Value::as_array).cloned(), r.get("export").and_then(Value::as_array)) {
+                    let mut a = a;
+                    for x in b {
+                        if !a.iter().any(|y| y[0] == x[0]) {
+                            a.push(x.clone());
+                        }
+                    }
+                    acc["export"] = Value::Array(a);
+                }
+            }
+        }
+    }
+    let results: Vec<Value> = by_idx.into_values().collect();
 
     // aggregate
     let g = |v: &Value, k: &str| v.get(k).and_then(Value::as_u64).unwrap_or(0);
@@ -555,6 +650,7 @@ pub fn check_main(prop: &Property, tier: Tier) -> i32 {
             "largest_case": {"schedules": largest.0, "desc": largest.1},
             "largest_cases": largest_cases,
             "vacuity_warning_cases_single_outcome": single_outcome_multi_schedule,
+            "cases_split_across_workers": split_cases,
             "caps_hit": caps,
             "known_findings_reproduced": known_hits,
             "workers": nworkers,
